@@ -18,7 +18,7 @@ PROPERTY = "C20"
 ALPH = ["a", "\U0001F600", "\U0001F601"]
 BOUNDS = ("catalogue documents; one edit per pair (fresh equal copy, text change, mark change, attribute change, "
           "delete child, duplicate child) at every node of the template; compared texts of 1..3 characters over "
-          "the alphabet {a, U+1F600, U+1F601} (quick: 1..2; on the first two text nodes of the template); start offsets unbounded ints; step budget "
+          "the alphabet {a, U+1F600, U+1F601} (quick: 1..2; on the first two text nodes of the template); start offsets unbounded ints (also negative); schema `at` adds an atom node that has content; step budget "
           "8*(tokens(a)+tokens(b))+64 calls/back-edges of find_diff_start/find_diff_end")
 ASSUMPTIONS = ["fragments that differ by more than one edit are outside the bound (the two functions recurse child by child, so one differing child per level is the general case)"]
 
